@@ -87,7 +87,27 @@ fn main() {
                 }
             }
         }
+        // the numeric space (mixed Integer / Float values) is run against the aggregating queries only
+        let first_numeric = graphs.len();
+        {
+            let (gs, r) = gen::enumerate_graphs(&gen::GraphSpace::numeric());
+            raw += r;
+            let mut seen = BTreeSet::new();
+            for g in gs {
+                if !g.rels.is_empty() && seen.insert(svmc::model::graph::canonical(&g)) {
+                    graphs.push(g);
+                }
+            }
+        }
+        let numeric_graphs = graphs.len() - first_numeric;
         let queries = gen::queries(false);
+        let is_agg: Vec<bool> = queries.iter().map(|q| {
+            // name = template/where/tail: numeric aggregates (sum, avg, min/max), without a WHERE variant
+            let parts: Vec<&str> = q.name.split('/').collect();
+            let tail = parts.last().copied().unwrap_or("");
+            let plain_where = parts.len() < 3 || parts[1] == "none" || parts[1].is_empty();
+            plain_where && ["sum", "avg", "min_max"].iter().any(|k| tail.contains(k))
+        }).collect();
         let mut capped = false;
         if let Some(n) = std::env::var("C01_MAX_GRAPHS").ok().and_then(|s| s.parse::<usize>().ok()) {
             // development knob only: strided subset, reported as a cap (never "exhaustive")
@@ -97,7 +117,7 @@ fn main() {
                 capped = true;
             }
         }
-        println!("space: {} graphs (raw {}), {} queries", graphs.len(), raw, queries.len());
+        println!("space: {} graphs (raw {}; {} of them mixed-numeric, run against the {} aggregating queries), {} queries", graphs.len(), raw, numeric_graphs, is_agg.iter().filter(|x| **x).count(), queries.len());
         if std::env::args().any(|a| a == "--count") {
             return;
         }
@@ -121,6 +141,9 @@ fn main() {
                 for (vn, compact_after) in variants {
                     let (store, idmap) = build(g, compact_after);
                     for (qi, gq) in queries.iter().enumerate() {
+                        if gi >= first_numeric && !is_agg[qi] {
+                            continue;
+                        }
                         t.evaluations += 1;
                         let verdict = match &parsed[qi] {
                             Err(e) => Verdict::Refused(e.clone()),
